@@ -17,6 +17,7 @@ type Term = string
 // Sorts collects declarations that a VC needs (datatypes, uninterpreted sorts, functions).
 type Sorts struct {
 	bv        bool              // integer mode of the VC being built
+	ixArith   bool              // the function does index arithmetic across slice offsets
 	decls     []string          // sort / datatype / function declarations in order
 	declared  map[string]bool   // names already declared
 	structs   map[string]*types.Struct
@@ -329,6 +330,16 @@ func (s *Sorts) strLit(lit string) Term {
 	return n
 }
 
+// ixAxiom: `ix o k` is the absolute index o+k. Functions that never do index arithmetic across
+// offsets (re-slicing at a non-zero bound, copy, append, string conversion) only need injectivity,
+// which keeps the arithmetic out of the quantifier instantiation (much faster, and weaker = sound).
+func (s *Sorts) ixAxiom(weak bool) string {
+	if !weak {
+		return "(assert (forall ((o Int) (k Int)) (! (= (ix o k) (+ o k)) :pattern ((ix o k)))))\n"
+	}
+	return "(assert (forall ((o Int) (k Int)) (! (= (unix o (ix o k)) k) :pattern ((ix o k)))))\n"
+}
+
 // prelude returns the fixed declarations every VC starts with.
 func (s *Sorts) prelude() string {
 	var b strings.Builder
@@ -342,7 +353,8 @@ func (s *Sorts) prelude() string {
 (declare-datatypes ((Iface 0)) (((mk_iface (ityp Int) (ival Int)))))
 (define-fun iface_nil () Iface (mk_iface 0 0))
 (declare-fun ix (Int Int) Int)
-(assert (forall ((o Int) (k Int)) (! (= (ix o k) (+ o k)) :pattern ((ix o k)))))
+(declare-fun unix (Int Int) Int)
+;IXAXIOM
 (define-fun tdiv ((a Int) (b Int)) Int (ite (>= a 0) (ite (> b 0) (div a b) (- (div a (- b)))) (ite (> b 0) (- (div (- a) b)) (div (- a) (- b)))))
 (define-fun tmod ((a Int) (b Int)) Int (- a (* b (tdiv a b))))
 (define-fun wrap_u8 ((x Int)) Int (mod x 256))
@@ -450,4 +462,50 @@ func (s *Sorts) constArray(elemSort string, v Term) Term {
 		s.axioms = append(s.axioms, fmt.Sprintf("(forall ((zi Int)) (! (= (select %s zi) %s) :pattern ((select %s zi))))", name, v, name))
 	}
 	return name
+}
+
+// sel builds (select arr idx) with a peephole: (select (store a i v) i) = v for syntactically equal i.
+func sel(arr, idx Term) Term {
+	if strings.HasPrefix(arr, "(store ") {
+		// split top-level arguments of the store
+		args := splitSexp(arr[len("(store ") : len(arr)-1])
+		if len(args) == 3 && args[1] == idx {
+			return args[2]
+		}
+	}
+	return "(select " + arr + " " + idx + ")"
+}
+
+func splitSexp(s string) []string {
+	var out []string
+	depth, start := 0, -1
+	for i := 0; i < len(s); i++ {
+		c := s[i]
+		switch {
+		case c == '(':
+			if depth == 0 && start < 0 {
+				start = i
+			}
+			depth++
+		case c == ')':
+			depth--
+			if depth == 0 {
+				out = append(out, s[start:i+1])
+				start = -1
+			}
+		case c == ' ' && depth == 0:
+			if start >= 0 {
+				out = append(out, s[start:i])
+				start = -1
+			}
+		default:
+			if depth == 0 && start < 0 {
+				start = i
+			}
+		}
+	}
+	if start >= 0 {
+		out = append(out, s[start:])
+	}
+	return out
 }
